@@ -12,20 +12,20 @@ import (
 	"golang.org/x/tools/go/ssa"
 )
 
-const extPrelude = `(define-fun goquo ((a Int) (b Int)) Int (ite (>= a 0) (ite (> b 0) (div a b) (- (div a (- b)))) (ite (> b 0) (- (div (- a) b)) (div (- a) (- b)))))
+var extPrelude = strings.NewReplacer("@@ONE@@", f64lit(1), "@@MONE@@", f64lit(-1), "@@P63@@", f64lit(9223372036854775808.0), "@@M63@@", f64lit(-9223372036854775808.0)).Replace(`(define-fun goquo ((a Int) (b Int)) Int (ite (>= a 0) (ite (> b 0) (div a b) (- (div a (- b)))) (ite (> b 0) (- (div (- a) b)) (div (- a) (- b)))))
 (define-fun gorem ((a Int) (b Int)) Int (- a (* b (goquo a b))))
 (declare-fun scmp (Str Str) Int)
 (assert (forall ((a Str) (b Str)) (! (and (<= (- 1) (scmp a b)) (<= (scmp a b) 1) (= (= (scmp a b) 0) (= a b)) (= (scmp a b) (- (scmp b a)))) :pattern ((scmp a b)))))
 (declare-fun i2f (Int) F64)
 (declare-fun f2i (F64) Int)
 (assert (= (i2f 0) fzero))
-(assert (= (i2f 1) ((_ to_fp 11 53) RNE 1.0)))
-(assert (forall ((x F64)) (! (=> (and (fp.gt x ((_ to_fp 11 53) RNE (- 1.0))) (fp.lt x ((_ to_fp 11 53) RNE 1.0))) (= (f2i x) 0)) :pattern ((f2i x)))))
-(assert (forall ((x F64)) (! (=> (and (not (fp.isNaN x)) (not (fp.isInfinite x)) (or (fp.geq x ((_ to_fp 11 53) RNE 1.0)) (fp.leq x ((_ to_fp 11 53) RNE (- 1.0)))) (fp.lt x ((_ to_fp 11 53) RNE 9223372036854775808.0)) (fp.gt x ((_ to_fp 11 53) RNE (- 9223372036854775808.0)))) (not (= (f2i x) 0))) :pattern ((f2i x)))))
+(assert (= (i2f 1) @@ONE@@))
+(assert (forall ((x F64)) (! (=> (and (fgt x @@MONE@@) (flt x @@ONE@@)) (= (f2i x) 0)) :pattern ((f2i x)))))
+(assert (forall ((x F64)) (! (=> (and (not (fisnan x)) (not (fisinf x)) (or (fge x @@ONE@@) (fle x @@MONE@@)) (flt x @@P63@@) (fgt x @@M63@@)) (not (= (f2i x) 0))) :pattern ((f2i x)))))
 (assert (forall ((x F64)) (! (and (<= (- 9223372036854775808) (f2i x)) (<= (f2i x) 9223372036854775807)) :pattern ((f2i x)))))
 (assert (forall ((i Int)) (! (=> (and (< (- 9007199254740992) i) (< i 9007199254740992)) (= (f2i (i2f i)) i)) :pattern ((i2f i)))))
-(assert (forall ((i Int)) (! (not (fp.isNaN (i2f i))) :pattern ((i2f i)))))
-(assert (forall ((i Int)) (! (= (fp.eq (i2f i) fzero) (= i 0)) :pattern ((i2f i)))))
+(assert (forall ((i Int)) (! (not (fisnan (i2f i))) :pattern ((i2f i)))))
+(assert (forall ((i Int)) (! (= (feq (i2f i) fzero) (= i 0)) :pattern ((i2f i)))))
 (declare-fun pf_ok (Str) Bool)
 (declare-fun pf_val (Str) F64)
 (declare-fun fmtf (F64) Str)
@@ -44,7 +44,7 @@ const extPrelude = `(define-fun goquo ((a Int) (b Int)) Int (ite (>= a 0) (ite (
 (declare-fun sprintf (Int Int) Str)
 (define-fun isdigit ((r Int)) Bool (ite (and (<= 0 r) (< r 128)) (and (<= 48 r) (<= r 57)) (uni_isdigit r)))
 (define-fun isletter ((r Int)) Bool (ite (and (<= 0 r) (< r 128)) (or (and (<= 65 r) (<= r 90)) (and (<= 97 r) (<= r 122))) (uni_isletter r)))
-`
+`)
 
 // external returns true when a model was applied.
 func (e *Enc) external(cur *cursor, v ssa.Value, callee *ssa.Function, args []Val, sig *types.Signature, pos token.Pos, c *ssa.CallCommon) bool {
@@ -119,11 +119,11 @@ func (e *Enc) external(cur *cursor, v ssa.Value, callee *ssa.Function, args []Va
 		e.assumedCallees["ext:"+full] = true
 		e.setResults(cur, v, sig, nil)
 	case "math.Floor":
-		set(fmt.Sprintf("(fp.roundToIntegral RTN %s)", at(0)))
+		set(fmt.Sprintf("(frtn %s)", at(0)))
 	case "math.Ceil":
-		set(fmt.Sprintf("(fp.roundToIntegral RTP %s)", at(0)))
+		set(fmt.Sprintf("(frtp %s)", at(0)))
 	case "math.Round":
-		set(fmt.Sprintf("(fp.roundToIntegral RNA %s)", at(0)))
+		set(fmt.Sprintf("(frna %s)", at(0)))
 	case "(*strings.Builder).WriteByte":
 		arr := e.heapGet(st, "M$builder", "Str")
 		e.heapSet(st, "M$builder", "Str", fmt.Sprintf("(store %s %s (scat (select %s %s) (sbyte %s)))", arr, at(0), arr, at(0), at(1)))
